@@ -79,7 +79,11 @@ SUMMARY_FNS = ["PropertySet::codepage", "PropertySet::set_codepage", "PropertySe
                "SummaryInfo::subject", "SummaryInfo::set_subject", "SummaryInfo::clear_subject",
                "SummaryInfo::title", "SummaryInfo::set_title", "SummaryInfo::clear_title",
                "SummaryInfo::creation_time", "SummaryInfo::set_creation_time", "SummaryInfo::clear_creation_time",
-               "SummaryInfo::word_count", "SummaryInfo::set_word_count", "SummaryInfo::clear_word_count"]
+               "SummaryInfo::word_count", "SummaryInfo::set_word_count", "SummaryInfo::clear_word_count",
+               "SummaryInfo::arch", "SummaryInfo::set_arch", "SummaryInfo::clear_arch",
+               "SummaryInfo::languages", "SummaryInfo::set_languages", "SummaryInfo::clear_languages",
+               "lemma_tpl_split", "lemma_before_no_semi", "lemma_after_set_arch", "lemma_after_set_languages",
+               "lemma_join_step", "lemma_first_of", "lemma_first_of_is"]
 
 PROPS["C10"] = {
     "level": "proof",
@@ -88,9 +92,10 @@ PROPS["C10"] = {
                             "Timestamp::from_system_time", "Timestamp::to_system_time", "lemma_resolution"]},
     "assumptions": [
         "vstd's BTreeMap model (insert/get/remove on the map view)",
-        "architecture/language template split and merge (split_once, splitn, format!) and set_uuid/uuid are NOT covered",
-        "string setters: the stored text is `.into()` of the argument (Into<String> unspecified); only the frame is proved for them",
-        "PropertySet::write offsets over the real BTreeMap: bounded Kani harness in the thorough tier only; the per-value size obligation (propval_lpstr_size, propval_fixed_*) is complete",
+        "architecture / language list: the template text is `<arch>;<list>` split at the FIRST ';'. Proved on the real arch/set_arch/clear_arch/languages/set_languages/clear_languages; the std string calls are trusted shims whose body is the original expression (prelude/tplshim.rs, strsplit.rs): split_once(';').map_or(..), splitn(2,';').collect(), format!(\"{};{}\"), format!(\"{}\", u16), and the list parser split(',').filter_map(parse).map(from_code).collect() with ONE assumed std fact: a list of u16 printed in decimal and joined by ',' parses back to the same list (axiom_parse_join)",
+        "set_arch precondition of the get-after-set lemma: the architecture text contains no ';' (with a ';' in it the text after it is read back as language list -- the format has no escape; not claimed)",
+        "string setters generic in S: Into<String> are verified at S = String (rule X3s: `.into()` is the identity; a &str caller goes through std's String::from)",
+        "set_uuid/uuid (package code) are NOT covered",
     ],
 }
 
